@@ -328,6 +328,8 @@ def gen_pt(ctx, chans, depth_left, force=None, kinds=None):
         return {'k': 'rep', 'n': ne, 'body': gen_pt(ctx, chans, d, force, kinds)}
     if k == 'for':
         idx = ctx.fresh('i')
+        if rng.random() < 0.15 and ctx.fixed():
+            idx = rng.choice(ctx.fixed())       # the loop index shadows an enclosing parameter
         start = rng.randint(-2, 3)
         shape = rng.random()
         if shape < 0.15:
@@ -386,7 +388,13 @@ def gen_pt(ctx, chans, depth_left, force=None, kinds=None):
         pool = [c for c in CHAN_POOL + ['D', 3] if c not in chans]
         rng.shuffle(pool)
         chm, inner_chans = [], []
-        for ch in chans:
+        perm = len(chans) >= 2 and rng.random() < 0.2
+        if perm:                                  # permute the channel names
+            inner_chans = list(chans)
+            while inner_chans == list(chans):
+                rng.shuffle(inner_chans)
+            chm = [[ic, oc] for ic, oc in zip(inner_chans, chans)]
+        for ch in ([] if perm else chans):
             if rng.random() < 0.4 and pool:
                 ic = pool.pop()
                 chm.append([ic, ch])
